@@ -298,11 +298,17 @@ def build_exact(recipe, data=None, variant=0):
         covar = K.ScaleKernel(base)
     else:
         raise ValueError(fam)
-    model = ZooExactGP(inputs if len(inputs) > 1 else inputs[0], y, lik, mean, covar, multitask=mt)
+    ctor_inputs = inputs if len(inputs) > 1 else inputs[0]
+    if data is None and recipe.get("one_d") and len(inputs) == 1 and inputs[0].dim() == 2 and inputs[0].shape[-1] == 1:
+        ctor_inputs = inputs[0].squeeze(-1)
+    late = data is None and recipe.get("late_data")
+    model = ZooExactGP(None if late else ctor_inputs, None if late else y, lik, mean, covar, multitask=mt)
     if fam == "hadamard":
         model.task_covar_module = K.IndexKernel(num_tasks=tasks, rank=recipe.get("rank", 1))
     model = model.double()
     model.likelihood = model.likelihood.double()
+    if late:
+        model.set_train_data(ctor_inputs, y, strict=False)
     model = named_priors(model, recipe, variant)
     return model
 
@@ -405,6 +411,13 @@ def gen_exact_recipe(rng, families=None, small=True):
         r["tasks"] = rng.choice([2, 3])
         r["rank"] = 1
         r["mean"] = rng.choice(["constant", "zero"])
+    # input-format variations of the LIVE model (the fresh oracle is always built through the constructor from 2-D data):
+    # 1-D training / test inputs (ExactGP unsqueezes them), and a model constructed without data that gets its
+    # data through set_train_data(strict=False) afterwards
+    if r["d"] == 1 and not r["batch"] and fam in ("default", "kissgp", "sgpr", "rff") and rng.random() < 0.15:
+        r["one_d"] = True
+    if fam in ("default", "kissgp", "sgpr", "rff", "multitask", "hadamard") and rng.random() < 0.12:
+        r["late_data"] = True
     return r
 
 
